@@ -390,6 +390,45 @@ def rule6_nodrop(ctx, fl):
                            bool(sts) or incb,
                            'a thread taken from a run queue may have been put there by another worker: th->env must be set to the '
                            'executing worker before the thread runs (its exit path and its wake-ups use th->env)', loc=sw_ins.loc)
+                # target selection agrees with the NULL test of the thread obtained, and the worker's current-thread record
+                # names the thread that is resumed
+                nts_all = null_tests(f, c.id) + [t_ for p_ in f.order if p_.op == 'phi' and c.id in f.sources(p_.id) for t_ in null_tests(f, p_.id)]
+                for s_ in sw:
+                    to = s_.to_ctx()
+                    ti = f.get(f.strip(to)) if isinstance(to, str) else None
+                    if ti is None or ti.op != 'phi' or s_.ins not in consume:
+                        continue
+                    okt, why = True, ''
+                    for val, b_ in ti.d['incoming']:
+                        term = f.blocks[b_].insts[-1]
+                        root = f.ap(val).root if isinstance(val, str) else None
+                        is_thr = isinstance(val, str) and c.id in (f.sources(root) if root is not None else set())
+                        flds = f.ap(val).fields if isinstance(val, str) else []
+                        is_sched = bool(flds) and flds[0] == 'myth_running_env.sched'
+                        if is_thr:
+                            if not any(f.edge_dominates(br.block.id, nn, term) for br, nn, nl in nts_all):
+                                okt, why = False, 'the thread\'s context is chosen where the thread was not tested non-NULL'
+                        elif is_sched:
+                            if not any(f.edge_dominates(br.block.id, nl, term) for br, nn, nl in nts_all):
+                                okt, why = False, 'the scheduler context is chosen although a thread was obtained'
+                        else:
+                            okt, why = False, 'one way into the switch leaves the target context undefined'
+                    ctx.ob('C02.6', '%s: switch target follows the NULL test of the %s result' % (name, c.callee or 'steal'), okt,
+                           'with a thread in hand the switch goes to that thread\'s context, without one to the scheduler\'s: the other way '
+                           'round drops the thread or jumps through a NULL descriptor', loc=s_.ins.loc, detail=why)
+                    # env->this_thread = the thread resumed (stored before the switch, or by the callback from its argument)
+                    direct = [st for st in f.stores_to('myth_running_env.this_thread') if c.id in f.sources(st.ops[0]) and f.dominates_f(st, s_.ins)]
+                    incb = False
+                    if s_.callback and f.mod.fn(s_.callback) is not None:
+                        cbf = f.mod.fn(s_.callback)
+                        for st in cbf.stores_to('myth_running_env.this_thread'):
+                            for k_ in cbf.sources(st.ops[0]):
+                                pi_ = cbf.param_index(k_)
+                                if pi_ is not None and pi_ < len(s_.cb_args) and s_.cb_args[pi_] is not None and c.id in f.sources(s_.cb_args[pi_]):
+                                    incb = True
+                    ctx.ob('C02.6', '%s: the worker\'s current-thread record follows the switch (%s)' % (name, c.callee or 'steal'), bool(direct) or incb,
+                           'env->this_thread names the thread being resumed (or NULL for the scheduler): wake-ups, self and the exit path '
+                           'read it', loc=s_.ins.loc)
                 tests = null_tests(f, c.id)
                 # values merged through phis (next = pop(); if (!next) next = steal()) are tested later:
                 merged = [p for p in f.order if p.op == 'phi' and c.id in f.sources(p.id)]
@@ -526,6 +565,11 @@ WSQ = 'src/myth_wsqueue_func.h'
 NAT = 'src/myth_if_native.c'
 SCHED = 'src/myth_sched_func.h'
 MUTANTS = [
+    {'name': 'block_on_queue goes to the scheduler when it has a thread (sweep M0193)', 'expect': 'C02.6',
+     'edits': [('src/myth_sync_func.h', "  env->this_thread = next;\n  if (next) {\n    /* a runnable thread */\n    next->env = env;\n    next_ctx = &next->context;\n  } else {\n    /* no runnable thread -> scheduler */\n    next_ctx = &env->sched.context;\n  }\n  /* now save the current context, myth_sleep_queue_enq_th(q, cur)",
+                "  env->this_thread = next;\n  if (!(next)) {\n    /* a runnable thread */\n    next->env = env;\n    next_ctx = &next->context;\n  } else {\n    /* no runnable thread -> scheduler */\n    next_ctx = &env->sched.context;\n  }\n  /* now save the current context, myth_sleep_queue_enq_th(q, cur)")]},
+    {'name': 'block_on_queue does not record the resumed thread as current (sweep M0197)', 'expect': 'C02.6',
+     'edits': [('src/myth_sync_func.h', "  myth_context_t next_ctx;\n  env->this_thread = next;\n  if (next) {", "  myth_context_t next_ctx;\n  if (next) {")]},
     {'name': 'queue_init leaves top unset', 'expect': 'C02.9',
      'edits': [(WSQ, "  q->base = q->size/2;\n  q->top = q->base;\n  memset(&q->wc,0,sizeof(myth_wscache));", "  q->base = q->size/2;\n  memset(&q->wc,0,sizeof(myth_wscache));")]},
     {'name': 'queue_init does not clear the peek cache', 'expect': 'C02.9',
